@@ -467,6 +467,7 @@ type Contract struct {
 	WritePre   map[string][]Clause // obligations at every assignment to a field of that name
 	CallPre    map[string][]Clause // emit-preconditions: callee name[.ordinal] -> clauses over the caller's variables and the callee's parameters
 	Props      []string
+	OptionalSites map[string]bool // emit-clause keys that need not meet a site
 }
 
 type Guard struct {
@@ -829,6 +830,15 @@ func parseContractText(data, path, pkg string) (*ContractFile, error) {
 			}
 			if cur.CallPre == nil {
 				cur.CallPre = map[string][]Clause{}
+			}
+			// `callpre f?: P` - "if f is ever called, P": a restriction on a call the body need not contain (it is exempt
+			// from the stale-clause check)
+			if strings.HasSuffix(callee, "?") {
+				callee = strings.TrimSpace(strings.TrimSuffix(callee, "?"))
+				if cur.OptionalSites == nil {
+					cur.OptionalSites = map[string]bool{}
+				}
+				cur.OptionalSites["callpre "+callee] = true
 			}
 			cur.CallPre[callee] = append(cur.CallPre[callee], c)
 		case "props":
